@@ -348,7 +348,7 @@ theorem C09_recipe_convert_every_quantity {c : Converter Rat} (hc : c.Sound) (to
     (∀ (k : Nat) q, r.inlineQuantities[k]? = some q → ∃ q',
       (recipeConvert c to r).1.inlineQuantities[k]? = some q' ∧
       QuantityConverted c to (some q) (some q')) ∧
-    (recipeConvert c to r).2 = (recipeQuantities r).flatMap (fun q => convErrors c to (some q)) ∧
+    (recipeConvert c to r).2 = (recipeVisitedQuantities r).flatMap (fun q => convErrors c to (some q)) ∧
     (∀ q, (convErrors c to q).length ≤ 1) := by
   obtain ⟨hs, hcw, hi, ht, hq, _⟩ := recipeConvert_spec c to r
   refine ⟨hs, hcw, ?_, ?_, ?_, cvm_recipe_errors c to r, cvm_convErrors_length c to⟩
